@@ -367,6 +367,27 @@ mod opt {
         }
     }
 
+    // A group whose module chain holds no compiled benchmark (everything below
+    // `platform::linux` is "cfg'ed out") stays out of the tree; it must not
+    // lend its options to the unrelated `io` module next to `platform`.
+    pub mod platform {
+        pub mod linux {
+            #[divan::bench_group(sample_count = 7, sample_size = 7, threads = [1, 2])]
+            #[ignore]
+            pub mod io {}
+        }
+    }
+
+    pub mod io {
+        use super::ran;
+
+        /// nothing set at any enclosing level
+        #[divan::bench]
+        fn read() {
+            ran("hx_select_e2e::opt::io::read")
+        }
+    }
+
     #[divan::bench_group(sample_count = 4, sample_size = 2)]
     pub mod g1 {
         use super::ran;
